@@ -61,7 +61,13 @@ func main() {
 	} else if r.RunErr != nil {
 		fmt.Printf("== scriggo err: %v\n", r.RunErr)
 	}
-	if r.Printed == ts[0].Out {
+	scPanic := ""
+	if pe, ok := r.RunErr.(*scriggo.PanicError); ok {
+		scPanic = strings.TrimRight(pe.Error(), "\n")
+	}
+	if r.Printed == ts[0].Out && scPanic != ts[0].Panic {
+		fmt.Println("== PANIC TEXT DIFFERS")
+	} else if r.Printed == ts[0].Out {
 		fmt.Println("== outputs equal")
 	} else {
 		fmt.Println("== OUTPUTS DIFFER")
